@@ -6,23 +6,48 @@ From PV Require Import Base.IPS Model.Dict Model.Terms Model.Func Spec.Sem
 Import ListNotations.
 Local Open Scope R_scope.
 
-(** ** Refutations: the unguarded statement "every well-scoped op sequence keeps the invariant" fails *)
+(** ** Refutations: the unguarded statement "every well-scoped op sequence keeps the invariant" fails.
+    Since /repo 5162ea4 ([Function.__add__] prunes) the only composites that still carry a zero weight
+    are zero functions: a bare zero scaling [0*f] = [{f: 0}], or everything cancelled [f - f] = [{}]. *)
 
-(** F-C07a, non-differentiable live term: [f1.oracle(x); F = f1 + f2 - f2; F.oracle(x)] leaves TWO
-    different function values for [f1] at [x] (I1 fails on a LEAF). *)
-Definition ops_zero_weight : list op :=
+(** F-C07d: [F = 0*f; F.oracle(x)] with [f] not yet evaluated at [x]: classification runs on the unpruned
+    [{f: 0}] ("f needs gradient and value"), two fresh leaves are recorded for the ZERO function. *)
+Definition ops_zero_scaling : list op :=
+  [NewPoint; NewLeaf true; Combine [(0%nat, 0%Q)]; Oracle 1%nat [(0%nat, 1%Q)]].
+
+(** F-C07c: [F = f - f; F.stationary_point()] records a free function value for the zero function. *)
+Definition ops_all_cancel : list op :=
+  [NewLeaf true; Combine [(0%nat, 1%Q); (0%nat, (-1)%Q)]; Stationary 1%nat].
+
+(** F-C07e (the old F-C07a, still reachable through the constructor): [f1.oracle(x);
+    F = Function(is_leaf=False, decomposition_dict={f1: 1, f2: 0}); F.oracle(x)] gives the non-differentiable
+    LEAF [f1] a second function value at [x]. *)
+Definition ops_ctor_zero_weight : list op :=
   [NewPoint; NewLeaf false; NewLeaf true; Oracle 0%nat [(0%nat, 1%Q)];
-   Combine [(0%nat, 1%Q); (1%nat, 1%Q); (1%nat, (-1)%Q)]; Oracle 2%nat [(0%nat, 1%Q)]].
-
-(** F-C07a, differentiable live term: the composite's sample is two fresh leaves, unrelated to the
-    only sample of its only remaining term (I3 fails). *)
-Definition ops_zero_weight_diff : list op :=
-  [NewPoint; NewLeaf true; NewLeaf true; Oracle 0%nat [(0%nat, 1%Q)];
-   Combine [(0%nat, 1%Q); (1%nat, 1%Q); (1%nat, (-1)%Q)]; Oracle 2%nat [(0%nat, 1%Q)]].
+   Direct [(0%nat, 1%Q); (1%nat, 0%Q)] false; Oracle 2%nat [(0%nat, 1%Q)]].
 
 (** F-C07b: [f.oracle(0*y); f.oracle(0*y)] records two samples at the point [{}] with different values. *)
 Definition ops_zero_query : list op :=
   [NewPoint; NewLeaf true; Oracle 0%nat [(0%nat, 0%Q)]; Oracle 0%nat [(0%nat, 0%Q)]].
+
+(** Regression sequences (the triggers of the repaired F-C07a): [f1.oracle(x); F = f1 + f2 - f2; F.oracle(x)]
+    with [f1] non-differentiable / differentiable.  With the current construction they are accepted by the
+    guard and keep the invariant; with the construction before 5162ea4 they break it ([step_old]). *)
+Definition ops_cancel_nondiff : list op :=
+  [NewPoint; NewLeaf false; NewLeaf true; Oracle 0%nat [(0%nat, 1%Q)];
+   Combine [(0%nat, 1%Q); (1%nat, 1%Q); (1%nat, (-1)%Q)]; Oracle 2%nat [(0%nat, 1%Q)]].
+Definition ops_cancel_diff : list op :=
+  [NewPoint; NewLeaf true; NewLeaf true; Oracle 0%nat [(0%nat, 1%Q)];
+   Combine [(0%nat, 1%Q); (1%nat, 1%Q); (1%nat, (-1)%Q)]; Oracle 2%nat [(0%nat, 1%Q)]].
+
+Definition step_old (s : state) (o : op) : state :=
+  match o with
+  | Combine terms =>
+      mkS (pt_ctr s) (ex_ctr s)
+          (funs s ++ [mkF false (combine_reuse s terms) (combine_weights_old s terms) [] []])
+  | _ => step s o
+  end.
+Definition run_old (ops : list op) : state := fold_left step_old ops init.
 
 Definition phi01 : nat -> R := fun e => match e with O => 1 | _ => 0 end.
 
@@ -36,16 +61,6 @@ Proof.
   unfold vof in H; cbn in H. unfold Q2R in H; cbn in H. lra.
 Qed.
 
-Lemma refuted_zero_weight : ops_scoped ops_zero_weight = true /\ ~ inv (run ops_zero_weight).
-Proof.
-  split; [vm_compute; reflexivity|].
-  apply (two_values_refute _ 0%nat [(0%nat, 1%Q)] [(1%nat, 1%Q)] [(0%nat, 1%Q)] [(2%nat, 1%Q)]).
-  - vm_compute. lia.
-  - vm_compute. left. reflexivity.
-  - vm_compute. right. left. reflexivity.
-  - vm_compute. reflexivity.
-Qed.
-
 Lemma refuted_zero_query : ops_scoped ops_zero_query = true /\ ~ inv (run ops_zero_query).
 Proof.
   split; [vm_compute; reflexivity|].
@@ -56,42 +71,45 @@ Proof.
   - vm_compute. reflexivity.
 Qed.
 
-Lemma refuted_zero_weight_diff :
-  ops_scoped ops_zero_weight_diff = true /\ ~ inv (run ops_zero_weight_diff).
+Lemma refuted_ctor_zero_weight : ops_scoped ops_ctor_zero_weight = true /\ ~ inv (run ops_ctor_zero_weight).
 Proof.
-  split; [vm_compute; reflexivity|]. intros Hinv.
-  set (s := run ops_zero_weight_diff) in *.
-  assert (HF : (2 < nfun s)%nat) by (vm_compute; lia).
-  assert (Hl : f_leaf (getf s 2%nat) = false) by (vm_compute; reflexivity).
-  assert (Hin : In ([(0%nat, 1%Q)], [(2%nat, 1%Q)], [(KF 1, 1%Q)]) (f_pts (getf s 2%nat)))
-    by (vm_compute; left; reflexivity).
-  destruct (ig_I3 noP s Hinv 2%nat _ HF Hl Hin) as [[]|(ch & Hcov & _ & HsV)].
-  assert (HW : f_w (getf s 2%nat) = [(0%nat, 1%Q)]) by (vm_compute; reflexivity).
-  rewrite HW in Hcov, HsV.
-  destruct (Hcov 0%nat 1%Q (or_introl eq_refl)) as [Hc _].
-  assert (Hp : f_pts (getf s 0%nat) = [([(0%nat, 1%Q)], [(1%nat, 1%Q)], [(KF 0, 1%Q)])]) by (vm_compute; reflexivity).
-  rewrite Hp in Hc. destruct Hc as [Hc|[]].
-  specialize (HsV R1 (fun _ => 0) phi01). cbn [dsum] in HsV. rewrite <- Hc in HsV.
+  split; [vm_compute; reflexivity|].
+  apply (two_values_refute _ 0%nat [(0%nat, 1%Q)] [(1%nat, 1%Q)] [(0%nat, 1%Q)] [(2%nat, 1%Q)]).
+  - vm_compute. lia.
+  - vm_compute. left. reflexivity.
+  - vm_compute. right. left. reflexivity.
+  - vm_compute. reflexivity.
+Qed.
+
+(** a composite with no weight left and a sample whose value is the leaf expression 0 *)
+Lemma free_value_of_zero_function_refute s F x g :
+  (F < nfun s)%nat -> f_leaf (getf s F) = false -> f_w (getf s F) = [] ->
+  In (x, g, [(KF 0, 1%Q)]) (f_pts (getf s F)) -> ~ inv s.
+Proof.
+  intros HF Hl HW Hin Hinv.
+  destruct (ig_I3 noP s Hinv F _ HF Hl Hin) as [[]|(ch & _ & _ & HsV)].
+  rewrite HW in HsV. specialize (HsV R1 (fun _ => 0) phi01).
   unfold vof in HsV; cbn in HsV. unfold Q2R in HsV; cbn in HsV. lra.
 Qed.
 
-(** F-C07c: [F = f - f; F.stationary_point()] records a free function value for the zero function:
-    the (empty) weighted sum of its terms' values is 0. *)
-Definition ops_all_cancel : list op :=
-  [NewLeaf true; Combine [(0%nat, 1%Q); (0%nat, (-1)%Q)]; Stationary 1%nat].
-
 Lemma refuted_all_cancel : ops_scoped ops_all_cancel = true /\ ~ inv (run ops_all_cancel).
 Proof.
-  split; [vm_compute; reflexivity|]. intros Hinv.
-  set (s := run ops_all_cancel) in *.
-  assert (HF : (1 < nfun s)%nat) by (vm_compute; lia).
-  assert (Hl : f_leaf (getf s 1%nat) = false) by (vm_compute; reflexivity).
-  assert (Hin : In ([(0%nat, 1%Q)], [], [(KF 0, 1%Q)]) (f_pts (getf s 1%nat)))
-    by (vm_compute; left; reflexivity).
-  destruct (ig_I3 noP s Hinv 1%nat _ HF Hl Hin) as [[]|(ch & _ & _ & HsV)].
-  assert (HW : f_w (getf s 1%nat) = []) by (vm_compute; reflexivity).
-  rewrite HW in HsV. specialize (HsV R1 (fun _ => 0) phi01).
-  unfold vof in HsV; cbn in HsV. unfold Q2R in HsV; cbn in HsV. lra.
+  split; [vm_compute; reflexivity|].
+  apply (free_value_of_zero_function_refute _ 1%nat [(0%nat, 1%Q)] []).
+  - vm_compute. lia.
+  - vm_compute. reflexivity.
+  - vm_compute. reflexivity.
+  - vm_compute. left. reflexivity.
+Qed.
+
+Lemma refuted_zero_scaling : ops_scoped ops_zero_scaling = true /\ ~ inv (run ops_zero_scaling).
+Proof.
+  split; [vm_compute; reflexivity|].
+  apply (free_value_of_zero_function_refute _ 1%nat [(0%nat, 1%Q)] [(1%nat, 1%Q)]).
+  - vm_compute. lia.
+  - vm_compute. reflexivity.
+  - vm_compute. reflexivity.
+  - vm_compute. left. reflexivity.
 Qed.
 
 (** ** The invariant, clause by clause, in the vocabulary of the property *)
@@ -192,11 +210,14 @@ Section Reading.
       apply prune_id. exact D.
   Qed.
 
-  (** I6: the flag of a sum is the conjunction of its terms' flags *)
+  (** I6: a sum declared differentiable only has differentiable terms *)
   Lemma read_I6 F :
-    (F < nfun s)%nat -> f_leaf (getf s F) = false ->
-    f_reuse (getf s F) = forallb (fun '(k, _) => f_reuse (getf s k)) (f_w (getf s F)).
-  Proof. apply (ig_I6 noP s Hinv). Qed.
+    (F < nfun s)%nat -> f_leaf (getf s F) = false -> f_reuse (getf s F) = true ->
+    forall k q, In (k, q) (f_w (getf s F)) -> f_reuse (getf s k) = true.
+  Proof.
+    intros HF Hl Hr k q Hin. pose proof (ig_I6 noP s Hinv F HF Hl Hr) as H. rewrite forallb_forall in H.
+    apply (H (k, q) Hin).
+  Qed.
 End Reading.
 
 (** lookup, independently of any state (the other half of I5) *)
